@@ -834,6 +834,35 @@ def gen_consts(ctx):
     sh, cs = fn_shape(f2)
     out.append(f'Definition shape_{name.lstrip("_")} : Z := {int(sh, 16)}.  '
                f'(* literals {cs} *)')
+  # model_modifier: large-model serialisation (Model/Serial.v): alignment
+  # constant, size threshold, body shapes
+  spath, stree = parse(ctx.root, 'model_modifier.py')
+  ser = find_func(spath, stree, '_serialize_large_model', 'ModelModifier')
+  mods = sorted(set(n.right.value for n in ast.walk(ser)
+                    if isinstance(n, ast.BinOp) and isinstance(n.op, ast.Mod)
+                    and isinstance(n.right, ast.Constant)))
+  if len(mods) != 1 or not isinstance(mods[0], int):
+    fail(spath, ser, f'expected one alignment constant in the padding loops, found {mods}')
+  out.append(f'(* model_modifier._serialize_large_model: while len(..) % {mods[0]} *)')
+  out.append(f'Definition serial_align : Z := {mods[0]}.')
+  mm = find_func(spath, stree, 'modify_model', 'ModelModifier')
+  thr = None
+  for n in ast.walk(mm):
+    if (isinstance(n, ast.Compare) and isinstance(n.left, ast.Name) and
+        n.left.id == 'constant_buffer_size' and len(n.ops) == 1 and
+        isinstance(n.ops[0], ast.Gt) and not isinstance(n.comparators[0], ast.Call)):
+      try:
+        thr = eval(compile(ast.Expression(n.comparators[0]), '<thr>', 'eval'), {'__builtins__': {}})  # pylint: disable=eval-used
+      except Exception:  # pylint: disable=broad-except
+        fail(spath, n, 'large-model threshold is not a constant expression')
+  if not isinstance(thr, int):
+    fail(spath, mm, 'large-model threshold comparison not found')
+  out.append(f'Definition large_model_threshold : Z := {thr}.')
+  for name in ('_serialize_large_model', '_process_constant_map', '_serialize_small_model'):
+    f2 = find_func(spath, stree, name, 'ModelModifier')
+    sh, cs = fn_shape(f2)
+    out.append(f'Definition shape_{name.lstrip("_")} : Z := {int(sh, 16)}.  '
+               f'(* literals {cs} *)')
   cpath, ctree = parse(ctx.root, 'utils/calibration_utils.py')
   fn = find_func(cpath, ctree, 'moving_average_update')
   dv = fn.args.defaults
